@@ -70,6 +70,9 @@ def run(run):
         "in-nested-invoke": {"module_src": "local e = {}\nfunction e.main(frame) return frame:preprocess('{{#invoke:hangdep2|main}}') end\nreturn e",
                              "extra": {"hangdep2": "local e = {}\nfunction e.main(frame) " + LOOP + " end\nreturn e"}},
     }
+    places["nested-invoke-loop"] = {
+        "module_src": "local e = {}\nfunction e.main(frame) while true do local x = frame:preprocess('{{#invoke:hangdep2|main}}') end end\nreturn e",
+        "extra": {"hangdep2": "local e = {}\nfunction e.main(frame) " + LOOP + " end\nreturn e"}}
     for name, spec in places.items():
         cases.append(dict(spec, body="return 'unused'", timeout=1, followups=FOLLOW[:2] if quick else FOLLOW, _timeout=13,
                           b="tight", w="place:" + name))
@@ -99,6 +102,8 @@ def run(run):
             sig = "c07:pcall-swallows-timeout"
         elif w in ("set-timeout", "clear-hook"):
             sig = "c07:timeout-controls-exposed"
+        elif w == "place:nested-invoke-loop":
+            sig = "c07:nested-invocation-swallows-timeout"
         orig_pf(sig, what, case)
     run.property_failure = pf
     for c, r in zip(cases, res):
